@@ -484,3 +484,83 @@ R.contract(
 R.spec_funcs["same_p"] = lambda it, a, b: (a is None and b is None) if (a is None or b is None) else a == b
 R.spec_funcs["same_t"] = lambda it, a, b: a is b
 
+
+# ------------------------------------------------------------------------------------------------- TaskProducer: every offered operation is handed to exactly one worker; deduplicate_errors: no distinct error is dropped
+POOL_ = "schemathesis.engine.phases.unit._pool:"
+
+
+def _lock_cm5(it, cm, item, rest, body, env):
+    it.ghost["lock_log"] = it.ghost["lock_log"] + ["acquired"]
+    try:
+        it.with_items(rest, body, env)
+    finally:
+        it.ghost["lock_log"] = it.ghost["lock_log"] + ["released"]
+
+
+R.context_managers["ProducerLock"] = _lock_cm5
+R.extern["threading.Lock"] = lambda it, a, k: __import__("pyvc.values", fromlist=["VObj"]).VObj(it.resolve_class("spec:ProducerLock"), {})
+R.nominal_methods["spec:OfferingSchema"] = {"get_all_operations": lambda it, obj, a, k: it.ghost.__setitem__("asked_with", dict(k)) or it.ghost.__setitem__("offered", fresh_opaque(it, "OperationIterator")) or it.ghost["offered"]}
+R.contract(
+    POOL_ + "TaskProducer.__init__",
+    variant="wiring",
+    prop="C05",
+    args={"self": Obj(POOL_ + "TaskProducer"), "ctx": Obj("spec:ProducerCtx", schema=Obj("spec:OfferingSchema"), config=Obj("spec:PCfg", execution=Obj("spec:PExec", generation=Opq("GenerationConfigRef"))))},
+    ghost={"asked_with": None, "offered": None},
+    raises=[],
+    ensures={
+        # C07 / C08: the workers are fed from the schema's own enumeration (its filters applied there), with the run's generation configuration
+        "fed_from_the_schemas_enumeration_of_operations": "self.operations is ghost('offered') and ghost('asked_with')['generation_config'] is ctx.config.execution.generation and self.lock is not None",
+    },
+    replayable=False,
+)
+
+
+class _OpsIterator(D):
+    """An iterator over 0..2 remaining operations (a python list iterator: `next(it, None)` semantics)."""
+
+    def make(self, it, name, idx=()):
+        n = it.path.choose([(k, True) for k in (0, 1, 2)], "remaining")
+        items = [fresh_opaque(it, "OperationResult") for _ in range(n)]
+        it.ghost["remaining"] = list(items)
+        from pyvc.values import VGen
+
+        return VGen(items)
+
+
+R.contract(
+    POOL_ + "TaskProducer.next_operation",
+    variant="handing-out",
+    prop="C05",
+    args={"self": Obj(POOL_ + "TaskProducer", operations=_OpsIterator(), lock=Obj("spec:ProducerLock"))},
+    ghost={"remaining": None, "lock_log": []},
+    raises=[],
+    ensures={
+        # each call hands out the NEXT operation (so every one is given to exactly one worker, in order) or None when there is none left - under the lock
+        "hands_out_the_next_operation_or_none": "(result is ghost('remaining')[0]) if length(ghost('remaining')) > 0 else result is None",
+        "taken_under_the_lock": "ghost('lock_log') == ['acquired', 'released']",
+    },
+    bounded_note="up to 2 remaining operations",
+    replayable=False,
+)
+ERRS = "schemathesis.engine.errors:"
+R.uf("canonical_message", ["ObjRef"], "str")
+R.contract(ERRS + "canonicalize_error_message", args={"error": Opq("Any"), "with_traceback": Opq("Any")}, returns=Str, pure=True, trusted=True, note="the error's message with addresses / URLs normalised")
+R.alias("message_of", ERRS + "canonicalize_error_message")
+R.contract(
+    ERRS + "deduplicate_errors",
+    prop="C05",
+    args={"errors": ListOf(Opq("PlainError"), [0, 1, 2, 3])},
+    raises=[],
+    returns=Seq(Opq("ErrObj")),  # the call-site view run_test is verified against (engine_common stated it as an assumption; here it is also an obligation of the body)
+    call_ensures={"empty_iff_empty": "iff(length(errors) == 0, length(result) == 0)"},
+    ensures={
+        "empty_iff_empty": "iff(length(errors) == 0, length(result) == 0)",
+        # no internal error is lost: every error whose (canonical) message was not seen before is reported - the FIRST of each group of equal messages, in order
+        "the_first_error_of_every_distinct_message_is_reported": "all(implies(not any(message_of(errors[j], True) == message_of(errors[i], True) for j in range(i)), any(r is errors[i] for r in result)) for i in range(length(errors)))",
+        "nothing_is_reported_twice_or_invented": "all(any(r is e for e in errors) for r in result) and length(result) <= length(errors) and "
+                                                 "all(not any(message_of(result[j], True) == message_of(result[i], True) for j in range(i)) for i in range(length(result)))",
+    },
+    bounded_note="up to 3 errors (no SerializationNotPossible among them)",
+    replayable=False,  # the messages are an uninterpreted function of the error objects; no native exception objects are built from the model
+)
+
